@@ -786,6 +786,10 @@ func partstoreRound(spec c19Spec, round int, rr *c19RoundResult) error {
 		return err
 	}
 	defer os.RemoveAll(filepath.Join(spec.Dir, fmt.Sprintf("r%d-fault", round)))
+	if err := txSequenceScenario(spec, round, rr); err != nil {
+		return err
+	}
+	defer os.RemoveAll(filepath.Join(spec.Dir, fmt.Sprintf("r%d-txseq", round)))
 	env, err := c19Env(spec)
 	if err != nil {
 		return err
